@@ -290,16 +290,21 @@ def replay(cand):
                             % (a.tolist(), flag, r.tolist(), vals, sorted(set(a.tolist())))}
         return {"reproduced": False, "what": "agrees", "key": None}
     if what == "rem_dup":
-        f = np.array([int(mdl["f%d" % i]) for i in range(n1)], dtype=fdt or "i8")
-        r = nu.rem_dup(a, f)
-        idx = [r] if isinstance(r, int) else r.tolist()
-        good = sorted(a[idx].tolist()) == sorted(set(a.tolist())) and idx == sorted(idx)
-        for k in idx:
-            if f[k] != f[a == a[k]].max():
-                good = False
-        if not good:
-            return {"reproduced": True, "key": "rem_dup-wrong",
-                    "what": "rem_dup(%r, %r) -> %r" % (a.tolist(), f.tolist(), idx)}
+        import itertools
+        f0 = np.array([int(mdl["f%d" % i]) for i in range(n1)], dtype=fdt or "i8")
+        # the order in which NumPy's (unstable) sort visits equal values is not the model's to choose: the
+        # same multiset of (value, flag) pairs is tried in every arrangement
+        for perm in itertools.islice(itertools.permutations(range(n1)), 120):
+            ap, f = a[list(perm)], f0[list(perm)]
+            r = nu.rem_dup(ap, f)
+            idx = [r] if isinstance(r, int) else r.tolist()
+            good = sorted(ap[idx].tolist()) == sorted(set(ap.tolist())) and idx == sorted(idx)
+            for k in idx:
+                if f[k] != f[ap == ap[k]].max():
+                    good = False
+            if not good:
+                return {"reproduced": True, "key": "rem_dup-wrong",
+                        "what": "rem_dup(%r, %r) -> %r" % (ap.tolist(), f.tolist(), idx)}
         return {"reproduced": False, "what": "agrees", "key": None}
     raise AssertionError(what)
 
